@@ -387,11 +387,18 @@ impl P<'_> {
                     }
                 }
                 _ => {
-                    // copy one UTF-8 scalar
-                    let s = std::str::from_utf8(&self.b[self.i..]).map_err(|e| e.to_string())?;
-                    let ch = s.chars().next().unwrap();
-                    out.push(ch);
-                    self.i += ch.len_utf8();
+                    // copy one UTF-8 scalar (the input is a &str, so it is valid UTF-8; decode only
+                    // the bytes of this scalar — validating the whole rest here would be quadratic)
+                    let n = match c {
+                        0x00..=0x7f => 1,
+                        0xc0..=0xdf => 2,
+                        0xe0..=0xef => 3,
+                        _ => 4,
+                    };
+                    let bytes = self.b.get(self.i..self.i + n).ok_or("truncated UTF-8")?;
+                    let s = std::str::from_utf8(bytes).map_err(|e| e.to_string())?;
+                    out.push_str(s);
+                    self.i += n;
                 }
             }
         }
